@@ -10,6 +10,7 @@ trivially satisfiable ownership), "planted:<rule>" (C08: one violation planted i
 import json
 
 MODES = ["val", "ref", "mut"]
+STANDARD_METHODS = ["CONNECT", "GET", "POST", "PUT", "DELETE", "PATCH", "HEAD", "OPTIONS", "TRACE"]
 
 
 def _pick_inputs(rng, pool, k, mode_weights):
@@ -290,13 +291,18 @@ def render(spec):
         i = h["i"]
         if h["fallible"]:
             emit_err("h", i)
-        if h.get("any"):
-            # matches every HTTP method (well-known or not)
+        # custom (non-standard) methods need an explicit opt-in (C07)
+        nonstd = ", allow(non_standard_methods)" if any(x not in STANDARD_METHODS for x in (h.get("methods") or [h.get("method", "GET")])) else ""
+        if h.get("any") == "all":
+            # MethodGuard::Any: matches every HTTP method, well-known or not
+            w("#[pavex::route(path = \"%s\", id = \"%s_H%d\", allow(any_method, non_standard_methods))]" % (h["path"], U, i))
+        elif h.get("any"):
+            # matches every well-known HTTP method
             w("#[pavex::route(path = \"%s\", id = \"%s_H%d\", allow(any_method))]" % (h["path"], U, i))
         elif h.get("methods"):
-            w("#[pavex::route(method = [%s], path = \"%s\", id = \"%s_H%d\")]" % (", ".join("\"%s\"" % x for x in h["methods"]), h["path"], U, i))
+            w("#[pavex::route(method = [%s], path = \"%s\", id = \"%s_H%d\"%s)]" % (", ".join("\"%s\"" % x for x in h["methods"]), h["path"], U, i, nonstd))
         else:
-            w("#[pavex::route(method = \"%s\", path = \"%s\", id = \"%s_H%d\")]" % (h["method"], h["path"], U, i))
+            w("#[pavex::route(method = \"%s\", path = \"%s\", id = \"%s_H%d\"%s)]" % (h["method"], h["path"], U, i, nonstd))
         params = ", ".join(_param(spec, k, j, m) for k, (j, m) in enumerate(h["ins"]))
         body = "log(format!(\"handler %s.h%d : %s\"%s));" % (M, i, _fmt_ids(h["ins"]), (", " + _ids(h["ins"])) if h["ins"] else "")
         if h["fallible"]:
@@ -367,7 +373,9 @@ def render(spec):
                 w("%s{" % ind)
                 w("%s    let mut %s = Blueprint::new();" % (ind, nv))
                 emit_ops(nb["ops"], nv, depth + 1)
-                if nb.get("prefix"):
+                if nb.get("prefix") and nb.get("domain"):
+                    w("%s    %s.prefix(\"%s\").domain(\"%s\").nest(%s);" % (ind, var, nb["prefix"], nb["domain"], nv))
+                elif nb.get("prefix"):
                     w("%s    %s.prefix(\"%s\").nest(%s);" % (ind, var, nb["prefix"], nv))
                 elif nb.get("domain"):
                     w("%s    %s.domain(\"%s\").nest(%s);" % (ind, var, nb["domain"], nv))
